@@ -8,6 +8,7 @@ CONSTANTS
   Small = TRUE
   Avoid = FALSE
   SimK = 0
+  AccW = TRUE
   Acts = {"dset", "rebind", "ddel", "batch", "ldel", "ctor"}
 CONSTRAINT LevelBound
 VIEW view
